@@ -10,6 +10,7 @@ pub mod c11;
 pub mod c12;
 pub mod c13;
 pub mod c14;
+pub mod c15;
 pub mod c16;
 pub mod c17;
 pub mod daemon;
@@ -121,6 +122,7 @@ pub fn all() -> Vec<PropDef> {
     v.push(c12::def());
     v.push(c13::def());
     v.push(c14::def());
+    v.push(c15::def());
     v.push(c16::def());
     v.push(c17::def());
     v.push(fe::def_c02());
